@@ -31,6 +31,9 @@ def call_entry(rng, entry, cls, model, invalid=True, warm=False):
     T = rng.uniform(290.0, 380.0)
     both = invalid and cls == "both_permeate"
     Tperm = rng.uniform(200.0, T - 25.0) if both else None
+    if both and rng.random() < 0.35:
+        # any stated permeate temperature counts: a liquid-nitrogen trap, a few kelvin, a fraction of a kelvin
+        Tperm = rng.choice([77.0, 77.15, 4.2, 20.0, 99.0, 100.0, 150.0, gen.logu(rng, 1e-3, 200.0)])
     pperm = (rng.uniform(0.0, 3.0) if rng.random() < 0.75 else 0.0) if both else None       # 0.0 kPa is a stated pressure too
     c = pv.Composition(p=rng.uniform(0.05, 0.95), type=gen.tstr(rng, rng.choice(["weight", "molar"])))
     if invalid and cls in ("model_params_missing", "component_constants_missing") and entry in ("activity", "partial_pressures", "solver") \
@@ -55,7 +58,25 @@ def call_entry(rng, entry, cls, model, invalid=True, warm=False):
             # (which cools away from it), at another temperature for the isothermal and the curve model
             exps = [pv.IdealExperiment(name="e", temperature=320.0, component=cmp_, permeance=P1, activation_energy=None)
                     for cmp_ in (mix.first_component, mix.second_component)]
-            perv_ea = pv.Pervaporation(membrane=pv.Membrane(name="v", ideal_experiments=pv.IdealExperiments(experiments=exps)), mixture=mix)
+            if warm:
+                # the SAME membrane object was complete at first (two experiments per component) and has answered off the experiments'
+                # temperatures; then the second experiments are withdrawn in place: what it holds NOW is underdetermined
+                more = [pv.IdealExperiment(name="e", temperature=345.0, component=cmp_, permeance=P2, activation_energy=None)
+                        for cmp_ in (mix.first_component, mix.second_component)]
+                mem_ea = pv.Membrane(name="v", ideal_experiments=pv.IdealExperiments(experiments=exps + more))
+                for cmp_ in (mix.first_component, mix.second_component):
+                    try:
+                        mem_ea.calculate_activation_energy(cmp_)
+                        mem_ea.get_permeance(T + 3.0, cmp_)
+                    except Exception:  # noqa: BLE001
+                        pass
+                if rng.random() < 0.5:
+                    import copy
+                    mem_ea = copy.deepcopy(mem_ea)
+                del mem_ea.ideal_experiments.experiments[2:]
+            else:
+                mem_ea = pv.Membrane(name="v", ideal_experiments=pv.IdealExperiments(experiments=exps))
+            perv_ea = pv.Pervaporation(membrane=mem_ea, mixture=mix)
             tc = T if entry == "nonideal_noniso" else T + rng.choice([-15.0, 12.0])
             cs = rp.make_curve_set(rng, mix, n_curves=1, n_points=4, t_center=tc)
             if entry == "nonideal_curve":
@@ -138,6 +159,19 @@ def call_entry(rng, entry, cls, model, invalid=True, warm=False):
                 exps = [pv.IdealExperiment(name="e", temperature=320.0, component=comp, permeance=P1, activation_energy=None),
                         pv.IdealExperiment(name="e", temperature=340.0, component=comp, permeance=P2, activation_energy=None)]
             mem = pv.Membrane(name="v", ideal_experiments=pv.IdealExperiments(experiments=exps))
+            if invalid and warm:
+                # the same membrane object, complete at first and asked validly; the second experiment is then withdrawn in place
+                mem = pv.Membrane(name="v", ideal_experiments=pv.IdealExperiments(experiments=exps + [
+                    pv.IdealExperiment(name="e", temperature=340.0, component=comp, permeance=P2, activation_energy=None)]))
+                try:
+                    mem.calculate_activation_energy(comp)
+                    mem.get_permeance(331.0, comp)
+                except Exception:  # noqa: BLE001
+                    pass
+                if rng.random() < 0.5:
+                    import copy
+                    mem = copy.deepcopy(mem)
+                del mem.ideal_experiments.experiments[1:]
             if entry == "activation_energy":
                 return mem.calculate_activation_energy(comp)
             # away from the experiment - by ten kelvin, or by a hair (next to the measured temperature is not AT it)
